@@ -33,7 +33,7 @@ os.remove(os.path.join(wt, "interpreter/tests/seed_demo.rs"))
 p3, f3, out3 = tests(wt)
 res["patched_without_demo"] = {"passed": p3, "failed": f3}
 sh("git checkout -- .", wt)
-ok = f == 0 and f2 > 0 and f3 == 0 and p3 == 67
+ok = f == 0 and f2 > 0 and f3 == 0 and p3 >= 67
 res["confirmed"] = ok
 print(json.dumps(res))
 if not ok:
